@@ -234,6 +234,7 @@ class Engine:
         if z3.is_false(v): return False
         return None
     def ensure_model(s, st):
+        if st.model is not None: s.model_true(st, z3.BoolVal(True))      # drops a witness model that does not satisfy conjuncts appended since (declared input ranges)
         if st.model is None:
             st.model = s.check(st)
             if st.model is None: raise Inconclusive('infeasible', 'path condition unsatisfiable')
@@ -716,16 +717,16 @@ class Engine:
             elif op == 'or': r = a | b
             elif op == 'xor': r = a ^ b
             elif op == 'shl':
-                if b >= bits: raise Bug('shift', 'shift amount >= width', s._m(st) if st else None)
+                if b >= bits: return Undef(bits)      # LLVM: poison, not UB (compiler-made bit tests shift first and select afterwards); a source-level shift is trapped by -fsanitize=shift
                 r = a << b
                 if nsw and s.nsw_check and st is not None:
                     x = to_signed(a, bits) << b
                     if not (-(1 << (bits - 1)) <= x < (1 << (bits - 1))): raise Bug('overflow', 'signed overflow in shl', s._m(st))
             elif op == 'lshr':
-                if b >= bits: raise Bug('shift', 'shift amount >= width', s._m(st) if st else None)
+                if b >= bits: return Undef(bits)      # LLVM: poison, not UB (compiler-made bit tests shift first and select afterwards); a source-level shift is trapped by -fsanitize=shift
                 r = a >> b
             elif op == 'ashr':
-                if b >= bits: raise Bug('shift', 'shift amount >= width', s._m(st) if st else None)
+                if b >= bits: return Undef(bits)      # LLVM: poison, not UB (compiler-made bit tests shift first and select afterwards); a source-level shift is trapped by -fsanitize=shift
                 r = to_signed(a, bits) >> b
             elif op == 'udiv':
                 if b == 0: raise Bug('div0', 'udiv by zero', s._m(st))
